@@ -187,3 +187,29 @@ Definition entry_label_ok (x : sx) : sx :=
   let own := label4 (Z.of_nat (length rows)) (Z.of_nat (length (hd [] rows))) (zload (concat rows) 0 zempty) (length (concat rows)) in
   L [of_bool (labelling_ok_b rows (zload (concat (as_Zss (arg 1 x))) 0 zempty) (as_Z (arg 2 x)));
      of_bool (labelling_ok_b rows (fst own) (snd own))].
+
+(* ---------------------------------------------------------------- ordinary binary hole filling *)
+Definition pixv (rows : list (list Z)) (p : Z) : Z := getz (zload (concat rows) 0 zempty) p.
+
+(* p and q are 4-adjacent pixel indices of an H x W image *)
+Definition adj4 (H W : Z) (p q : Z) : Prop :=
+  exists r c,
+    (0 <= r < H - 1 /\ 0 <= c < W /\ ((p = r * W + c /\ q = (r + 1) * W + c) \/ (q = r * W + c /\ p = (r + 1) * W + c))) \/
+    (0 <= r < H /\ 0 <= c < W - 1 /\ ((p = r * W + c /\ q = r * W + c + 1) \/ (q = r * W + c /\ p = r * W + c + 1))).
+
+Inductive BgPath (rows : list (list Z)) (p : Z) : Z -> Prop :=
+| BgPath_refl : BgPath rows p p
+| BgPath_step q s : BgPath rows p q ->
+    adj4 (Z.of_nat (length rows)) (Z.of_nat (length (hd [] rows))) q s -> pixv rows s = 0 -> BgPath rows p s.
+
+Definition on_border (H W : Z) (p : Z) : Prop :=
+  exists r c, p = r * W + c /\ 0 <= r < H /\ 0 <= c < W /\ (r = 0 \/ r = H - 1 \/ c = 0 \/ c = W - 1).
+
+(* the background pixel p is connected to the image border through background: not a hole *)
+Definition Outside (rows : list (list Z)) (p : Z) : Prop :=
+  exists q, on_border (Z.of_nat (length rows)) (Z.of_nat (length (hd [] rows))) q /\ pixv rows q = 0 /\ BgPath rows q p.
+
+(* the other half of "numbers the components": equal numbers only within one component *)
+Definition components_separate (rows : list (list Z)) (bl : zmap Z) : Prop :=
+  forall p q, 0 <= p < Z.of_nat (length (concat rows)) -> 0 <= q < Z.of_nat (length (concat rows)) ->
+    getz bl p = getz bl q -> getz bl p <> 0 -> BgPath rows p q.
